@@ -703,7 +703,7 @@ luaL_setfuncs({LUA_state_var}, {LUA_class_reg}, 0);
         )
         util.extern_C(output, "end")
         output.append("#endif  /* %s */" % guard)
-        self.write_output_file(fname, self.config.python_dir, output)
+        self.write_output_file(fname, self.config.lua_dir, output)
 
     def append_luaL_Reg(self, output, name, lines):
         """Create luaL_Reg struct
